@@ -14,6 +14,7 @@ pub mod c10;
 pub mod c11;
 pub mod c12;
 pub mod c13;
+pub mod c14;
 pub mod c16;
 pub mod c17;
 pub mod c18;
@@ -35,6 +36,7 @@ pub fn run(ctx: &Ctx) -> Option<PropReport> {
         "C11" => c11::run(ctx),
         "C12" => c12::run(ctx),
         "C13" => c13::run(ctx),
+        "C14" => c14::run(ctx),
         "C16" => c16::run(ctx),
         "C17" => c17::run(ctx),
         "C18" => c18::run(ctx),
@@ -59,6 +61,7 @@ pub fn replay(ctx: &Ctx, sub: &str, case: &Value) -> Result<(), Fail> {
         "C11" => c11::replay(ctx, sub, case),
         "C12" => c12::replay(ctx, sub, case),
         "C13" => c13::replay(ctx, sub, case),
+        "C14" => c14::replay(ctx, sub, case),
         "C16" => c16::replay(ctx, sub, case),
         "C17" => c17::replay(ctx, sub, case),
         "C18" => c18::replay(ctx, sub, case),
@@ -84,6 +87,7 @@ pub fn probe_known(ctx: &Ctx, key: &str) -> Option<bool> {
 pub fn leg(prop: &str, seed: u64, n: u64, _rest: &[String]) {
     match prop {
         "C04" => c04::leg(seed, n),
+        "C14" => c14::leg(seed, n),
         _ => {}
     }
 }
